@@ -1,7 +1,7 @@
 (** Correspondence and monitor for C13 (package rendering is deterministic and conserves objects). *)
 From Coq Require Import List Arith NArith Bool Lia Permutation.
 From Coq Require String.
-From PKO Require Import Util Collector Templates CollectorProofs.
+From PKO Require Import Util Collector Templates CollectorProofs Structure StructureProofs.
 Import ListNotations.
 Local Open Scope N_scope.
 
@@ -107,6 +107,27 @@ Lemma tmodel_enum_invariant init init' tmpls striptab final :
   Permutation init init' -> NoDup (map fst init) ->
   tmodel (init, tmpls, striptab, final) = tmodel (init', tmpls, striptab, final).
 Proof. intros Hp Hnd. unfold tmodel. now apply templates_order_independent. Qed.
+
+(** ** The structure stage *)
+(** What went into the loader and what it handed to the renderer: whether the root manifest declares
+    components, which component was asked for (None = the root), the paths of the raw package as
+    the scenario wrote them (segments), and the paths of pkg.Files after LoadComponent. *)
+Definition scase := (bool * option seg * list spath * list spath)%type.
+
+Definition spath_eqb (a b : spath) : bool := list_eqb seg_eqb a b.
+Definition spaths_eqb (a b : list spath) : bool :=
+  Nat.eqb (length a) (length b) && forallb (fun p => existsb (spath_eqb p) b) a &&
+  forallb (fun p => existsb (spath_eqb p) a) b.
+
+Definition smodel (t : scase) : list spath :=
+  let '(multi, comp, raw, _) := t in
+  package_files multi (match comp with Some c => Comp c | None => Root end) raw.
+
+(** The loader handed over exactly the files that belong to the rendered package by the structure
+    rule ([Structure.package_files]): nothing of it dropped, nothing foreign added. This is the
+    file-level half of conservation; the object-level half is [monitor]. *)
+Definition sagree (t : scase) : bool :=
+  let '(_, _, _, loaded) := t in spaths_eqb (smodel t) loaded.
 
 Definition judge (c : case) : bool * bool * bool := (agree c, monitor c, expect_ok c).
 
